@@ -9,6 +9,8 @@
 //	                                     offered to a real LastVoteproofsHandler; graph with integer node ids
 //	replay   --in behaviours --out res   binding A: TLC -simulate sequences into ONE long-lived Ballotbox /
 //	                                     ONE long-lived LastVoteproofsHandler
+//	votes    --maxh H --maxr R ...       binding B: the moves the box makes itself while it VOTES (really
+//	                                     signed ballots with embedded voteproofs, Count) - see votes.go
 //
 // A position is {h, r, s, m, c}: height, round, stage (1 INIT, 3 ACCEPT, 0 none), majority 0/1,
 // suffrage-confirm 0/1; the zero position is {-1,0,0,0,0}.
@@ -203,7 +205,7 @@ func positions(maxh, maxr int64) []Pos {
 
 func run(args []string) error {
 	if len(args) < 1 {
-		return fmt.Errorf("mode: table | relation | replay")
+		return fmt.Errorf("mode: table | relation | replay | votes")
 	}
 	fl := h.Flags(args[1:])
 	switch args[0] {
@@ -213,6 +215,8 @@ func run(args []string) error {
 		return relation(fl)
 	case "replay":
 		return replay(fl)
+	case "votes":
+		return votes(fl)
 	}
 	return fmt.Errorf("unknown mode %q", args[0])
 }
